@@ -499,6 +499,7 @@ def run(chk):
                        'Every state is evaluated by the plain functions (single and multi-row), the range/mean and from/to collective accessors; two-step paths on a seeded sample; '
                        'the matrix interface on integer-edge matrices whose ranges hit class borders (exact class placement from MC_Rebin) and on random from/to matrices (totals); call histories (MC_HeldCalls, up to 3 calls) on a kept HaighDiagram object and a kept matrix accessor against fresh objects. '
                        'Non-trivial = non-zero mean and target other than R = -1.')
+    chk.cov['rule'] += ' Also: integer-typed inputs, other stress units (2^-30, 0.1, 1000), collective rows in another order (keyed), call histories on kept HaighDiagram objects / matrix accessors (MC_HeldCalls), matrices with permuted rows, with a node_id level (sparse, per-node sensitivities), 160 random from/to matrices.'
     chk.cov['exhaustive'] = True
     chk.assumptions += ['rational lattice of cycles / sensitivities; comparisons at rel 1e-9']
 
